@@ -50,6 +50,55 @@ CHECKS['C04'] = ('4/C04',
     'arithmetic vs exact rationals (1e-9). & versus + - * / is not fixed by the statement.',
     'Lean 4 proof (parser/printer round trip by induction on renderings, fuel monotonicity) + generated precedence table + tree-shape correspondence with ply')
 
+CHECKS['C05'] = ('4/C05',
+    'Lean 4 theorems: EVERY derivation by the six productions of an argument/element sequence (the generated grammar is proved to '
+    'consist of exactly these shapes, identical for the three separators, plus the two row forms) yields one entry per '
+    'separator-delimited slot, blank for omitted - independent of how yacc resolves the conflicts of this ambiguous grammar; the five '
+    'numeric literal forms and quoted literals (any contents without the delimiting quote, trailing backslash included) evaluate to '
+    'what they spell; white space before/after any text and between self-delimiting tokens is dropped; cell labels are '
+    'case-insensitive; the separator kind is irrelevant to classification. The lexer model is tied to ply by comparing token '
+    'streams on arbitrary strings, the slot patterns by complete enumeration up to 6 slots x 3 separators.',
+    'Trusted: Lean kernel; extract.py (lexer rule order/regex texts and productions regenerated); the `re` engine (hand-written '
+    'matchers, pattern texts pinned); ply table construction modelled; white space at several maximal-munch boundaries at once is '
+    'covered one boundary at a time (stated in Props/C05.lean).',
+    'Lean 4 proof (induction on derivations; lexer lemmas) + generated grammar/lexer tables + token-stream and slot correspondence')
+CHECKS['C06'] = ('4/C06',
+    'Lean 4 theorems over the model of evaluate_arithmetic / value_and_type / ExcelArrayOps / & with the conversion table '
+    'regenerated from IMPLICIT_DATA_TYPE_CONVERSIONS: on scalars the result equals a specification written from the statement '
+    'independently of the table (exact rational arithmetic, int/float typing, date re-wrapping set, #VALUE!, #DIV/0!, #NUM!); + and * '
+    'are commutative for ALL values at any nesting (up to which error code is reported where both sides hold errors); arrays combine '
+    'element-wise, one-element arrays act as their element, other length mismatches give #VALUE!; date+n / date-date in closed form; '
+    '& joins text, integer digits and blanks. Tied to the code on the complete product of an operand pool under + - * / &.',
+    'Trusted: Lean kernel; extract.py; Python float arithmetic modelled by exact rationals (results compared within 4 ulp / 1e-9); '
+    'int()/float()/dateutil text parsing beyond ASCII decimal and ISO-8601 is library behaviour (oracle-only).',
+    'Lean 4 proof (case analysis over the generated table cells, induction on array nesting) + generated conversion table + pool-product correspondence')
+CHECKS['C09'] = ('4/C09',
+    'Lean 4 theorems: all 156 documented names are registered (decide over the regenerated lists - the whole quantifier); every '
+    'identifier-shaped name lexes as one VARIABLE token and evaluates to exactly the value set / #NAME? when unknown; a custom '
+    'function is called once per call site with the evaluated arguments in order, shadowing built-ins; an unknown function or '
+    'variable at ANY position of ANY formula (contexts of any depth) makes the whole formula #NAME?. Tied to the code by seeded '
+    'names/values/trees with recording callables and by embedding unknown calls in every argument position of enclosing functions.',
+    'Trusted: Lean kernel; extract.py (registry, SUPPORTED_FORMULAS.md, predefined variables, lexer order); correspondence harness; '
+    'Python object identity of host values is checked by the oracle only.',
+    'Lean 4 proof (lexer lemma for all shaped names, abort propagation by induction over contexts) + generated registry + correspondence')
+CHECKS['C12'] = ('4/C12',
+    'Lean 4 theorems over the models of logic.py and information.py: AND/OR/XOR/NOT are conjunction/disjunction/parity/negation of the '
+    'truth values of the flattened items for any arity and nesting and are invariant under regrouping; IF/IFS/SWITCH as stated; an '
+    'error in a tested condition yields that error; the five predicates partition numbers/text/logicals/blanks/errors, ISNONTEXT = '
+    'not ISTEXT, ISERROR = ISERR or ISNA, ISEVEN/ISODD are the parity of the truncated integer part and complementary. The models '
+    'are tied to the code on complete small tuples, seeded longer ones, every error code in every condition position and a 47-value pool.',
+    'Trusted: Lean kernel; correspondence harness; Python truthiness/== modelled by hand; SWITCH equality is judged for same-kind values.',
+    'Lean 4 proof (structural induction on flattened arguments) + model/implementation correspondence')
+CHECKS['C13'] = ('4/C13',
+    'Lean 4 theorems over the model of serialize_date/parse_date with every constant and comparison operator regenerated from the '
+    'source: date -> serial -> date is the identity for EVERY microsecond from 1900-01-01 on; serials are strictly increasing; from '
+    '1 March 1900 the serial is the days since 1899-12-30 (anchor derived from the calendar constants); serial -> date -> serial is '
+    'the identity from 61 on; date+n, date-date, comparisons, DATEVALUE, N and DAYS all see that serial. Tied to the code on every '
+    '97th day (quick) / every day 1900-9999 and every integer serial 61..2958465 (thorough).',
+    'Trusted: Lean kernel; extract.py (constants by source position); Python float arithmetic on serials (modelled exactly; compared '
+    'to the millisecond); "date + n" is judged where the Excel clause applies (operand and result from 1 March 1900).',
+    'Lean 4 proof (closed forms from pinned generated constants, linear arithmetic over Int/Rat) + generated constants + full-day sweep correspondence')
+
 NOT_APPLICABLE = {}
 
 
